@@ -176,29 +176,6 @@ def linkK [DecidableEq α] (E : Sync.Env α) (k : KWorld α) (p q : Pair) (both 
   | some _ => r
   | none => if both then linkOneK E r.world q p else r
 
-/-- The commands of a history, and arming a trigger. -/
-inductive CmdK (α : Type) where
-  | cmd (c : Cmd α)
-  | arm (p : Pair) (o : Nat)
-
-def cmdObjs : Cmd α → List Nat
-  | .assign p _ => [p.1]
-  | .mutate p _ => [p.1]
-  | .link p q _ => [p.1, q.1]
-  | .unlink p q _ => [p.1, q.1]
-  | .kill _ => []
-
-def stepK [DecidableEq α] (E : Sync.Env α) (k : KWorld α) : CmdK α → ResK α
-  | .arm p o => { world := { k with doom := k.doom ++ [(p, o)] } }
-  | .cmd c =>
-    let k0 : KWorld α := { k with busy := cmdObjs c }
-    match c with
-    | .assign p v => assignK E k0 p v
-    | .mutate p op => mutateK E k0 p op
-    | .link p q m => linkK E k0 p q m
-    | .unlink p q m => { world := { k0 with w := k0.w.unlink E p q m } }
-    | .kill o => { world := killK k0 o }
-
 /-! ### `sync_trait`, transcribed (has_traits.py `sync_trait`, add and remove paths) -/
 
 /-- `setattr` / list call with the recursion budget of the state it starts in. -/
@@ -259,6 +236,31 @@ def isListTrait (d : TraitDesc) : Bool :=
   match d.handler with
   | some .traitListObject => true
   | _ => false
+
+/-- The commands of a history, and arming a trigger. -/
+inductive CmdK (α : Type) where
+  | cmd (c : Cmd α)
+  | arm (p : Pair) (o : Nat)
+
+def cmdObjs : Cmd α → List Nat
+  | .assign p _ => [p.1]
+  | .mutate p _ => [p.1]
+  | .link p q _ => [p.1, q.1]
+  | .unlink p q _ => [p.1, q.1]
+  | .kill _ => []
+
+def stepK [DecidableEq α] (E : Sync.Env α) (k : KWorld α) : CmdK α → ResK α
+  | .arm p o => { world := { k with doom := k.doom ++ [(p, o)] } }
+  | .cmd c =>
+    let k0 : KWorld α := { k with busy := cmdObjs c }
+    match c with
+    | .assign p v => assignK E k0 p v
+    | .mutate p op => mutateK E k0 p op
+    | .link p q m =>
+      match linkS E k0 p q m with
+      | (k', exc) => { world := k', exc := exc }
+    | .unlink p q m => { world := unlinkS E k0 p q m }
+    | .kill o => { world := killK k0 o }
 
 /-- A history; an exception leaves the state the failing command left. -/
 def runK [DecidableEq α] (E : Sync.Env α) : KWorld α → List (CmdK α) → KWorld α
